@@ -20,6 +20,7 @@ import (
 	"fmt"
 	"github.com/echovault/sugardb/internal"
 	"github.com/echovault/sugardb/internal/config"
+	"github.com/echovault/sugardb/internal/verifhook"
 	"github.com/hashicorp/raft"
 	"io"
 	"log"
@@ -65,6 +66,8 @@ func (fsm *FSM) Apply(log *raft.Log) interface{} {
 				Response: nil,
 			}
 		}
+
+		verifhook.Event("fsm.apply", fsm.options.Config.ServerID, log.Index, log.Data)
 
 		ctx := context.WithValue(context.Background(), internal.ContextServerID("ServerID"), request.ServerID)
 		ctx = context.WithValue(ctx, internal.ContextConnID("ConnectionID"), request.ConnectionID)
